@@ -114,12 +114,14 @@ def reference_build(build):
     cfg = {k: _conv_cfg(v) for k, v in build['config']}
     syms = _mk_symbols(build['symbols'])
     values = {}
+    top_values = {}      # only entries of the top-level mapping are visible as names / through ayns.cfg
     failed = {}
     for ev in build['evals']:
         ns = {}
         ns.update(cfg)
-        ns.update(values)
-        ns['ayns'] = B({'cfg': B({**cfg, **values})})
+        ns.update(top_values)
+        allkeys = {k: None for k in _top_level_keys(build)}
+        ns['ayns'] = B({'cfg': B({**allkeys, **cfg, **top_values})})
         ns.update(syms)
         deps_failed = [k for k in failed if _mentions(ev, k)]
         if deps_failed:
@@ -138,11 +140,33 @@ def reference_build(build):
             else:
                 val = eval(compile(_code_text(ev), '<ref>', 'eval'), ns)
             values[ev['key']] = val
+            if ev['where'] == 'top' or ev['kind'] == 'fstr_implicit':
+                top_values[ev['key']] = val
         except Exception as e:
             failed[ev['key']] = type(e).__name__
     if failed:
         return None, sorted(set(failed.values())), {k: observe.native(v) for k, v in values.items()}
     return {k: observe.native(v) for k, v in values.items()}, None, None
+
+
+def _top_level_keys(build):
+    """Keys of the top-level mapping of the build's document, in document order."""
+    keys = [k for k, _ in build['config']]
+    if build.get('unsafe_entry'):
+        keys.append('cunsafe')
+    nested_map = nested_list = False
+    for ev in build['evals']:
+        if ev['where'] == 'top' or ev['kind'] == 'fstr_implicit':
+            keys.append(ev['key'])
+        elif ev['where'] == 'nested_map':
+            nested_map = True
+        else:
+            nested_list = True
+    if nested_map:
+        keys.append('box')
+    if nested_list:
+        keys.append('seq')
+    return keys
 
 
 def _mentions(ev, key):
@@ -191,8 +215,9 @@ def _gen_evals(r, env, n):
         g = ProgGen(r, env, p_error=r.choice([0.0, 0.1, 0.3]))
         key = f'e{i}'
         if kind == 'eval':
-            if r.random() < 0.08:
-                lines = [r.choice(['ayns.cfg.ca + 1', "ayns.cfg.cm['x'] * 2", 'ayns.cfg.cl[0] + s1'])]
+            if r.random() < 0.1:
+                lines = [r.choice(['ayns.cfg.ca + 1', "ayns.cfg.cm['x'] * 2", 'ayns.cfg.cl[0] + s1', 'len(ayns.cfg) + ca',
+                                   "[('cm' in ayns.cfg), ('nonexistent' in ayns.cfg), bool(ayns.cfg)]", 'sorted(str(k_) for k_ in ayns.cfg)'])]
             else:
                 lines = g.program(max_stmts=r.choice([0, 1, 2, 4, 6]))
             ev = {'key': key, 'kind': 'eval', 'lines': lines, 'features': sorted(g.features)}
@@ -244,7 +269,7 @@ def generate(r, tier, index):
         reuse = bi > 0 and r.random() < 0.75
         cfg, syms, env = _gen_env(r, bi, flags)
         evals = copy.deepcopy(base_evals) if (bi == 0 or reuse) else _gen_evals(r, env, r.randrange(1, 3))
-        builds.append({'config': cfg, 'symbols': syms, 'evals': evals,
+        builds.append({'config': cfg, 'symbols': syms, 'evals': evals, 'unsafe_entry': r.random() < 0.3,
                        'filename': r.choice([None, '/w/conf/main.yaml', '/w/conf/main.yaml', f'/w/conf/other{bi}.yaml']),
                        'ctx': r.choice(['own', 'own', 'default']), 'via': r.choice(['text', 'file'])})
     par = n_builds >= 2 and r.random() < 0.3
@@ -253,6 +278,26 @@ def generate(r, tier, index):
             if builds[bi - 1]['ctx'] in ('own', 'reuse') and r.random() < 0.2:
                 builds[bi]['ctx'] = 'reuse'                       # same EvalContext object as the previous build:
                 builds[bi]['symbols'] = builds[bi - 1]['symbols']  # its symbols are the ones that count
+    if not par and n_builds >= 2 and r.random() < 0.15:
+        # a build that fails while one node is reading another entry by name (or while evaluating a dependency), followed by a
+        # build with the same evaluation context whose config carries plain data marked !unsafe
+        j = r.randrange(0, n_builds - 1)
+        failing = r.choice(['cb // cz', 'undefined_name_ + 1', "cm['nokey']", 'int(cs)'])
+        reader = r.choice(['[e0, ca]', 'e0 + 1', "f'{e0}'", '[x_ for x_ in [e0, e0]]'])
+        builds[j]['evals'] = [{'key': 'e0', 'kind': 'eval', 'lines': [failing], 'features': ['failing_dependency'], 'where': 'top'},
+                              {'key': 'e1', 'kind': 'eval', 'lines': [reader], 'features': ['failing_dependency'], 'where': r.choice(['top', 'nested_map'])}]
+        if r.random() < 0.5:
+            builds[j]['evals'].reverse()      # the reader comes first in the document
+        builds[j]['ctx'] = 'own'
+        builds[j + 1]['ctx'] = 'reuse'
+        builds[j + 1]['symbols'] = builds[j]['symbols']
+        builds[j + 1]['unsafe_entry'] = True
+        for bi in range(1, n_builds):      # a reused context keeps the symbols it was created with
+            if builds[bi]['ctx'] == 'reuse':
+                if builds[bi - 1]['ctx'] == 'default':
+                    builds[bi]['ctx'] = 'own'
+                else:
+                    builds[bi]['symbols'] = builds[bi - 1]['symbols']
     sc = {'builds': builds, 'par': par}
     if par:
         from .c20 import _sched_spec
@@ -273,6 +318,8 @@ def _doc_text(build):
     nested_list = []
     for k, v in build['config']:
         lines.append(f'{emit.key_text(k)}: {json.dumps(v)}')
+    if build.get('unsafe_entry'):
+        lines.append('cunsafe: !unsafe 77')       # plain data marked unsafe, read by nobody: must not disturb anything
     for ev in build['evals']:
         if ev['kind'] == 'eval':
             val = '!eval ' + json.dumps('\n'.join(ev['lines']))
@@ -504,6 +551,18 @@ def _stmt_groups(lines):
     return groups
 
 
+def _normalise(c):
+    """Keep a shrunk history meaningful: a build that reuses the previous build's context has that context's symbols."""
+    bs = c['builds']
+    for bi, b in enumerate(bs):
+        if b['ctx'] == 'reuse':
+            if bi == 0 or bs[bi - 1]['ctx'] == 'default':
+                b['ctx'] = 'own'
+            else:
+                b['symbols'] = copy.deepcopy(bs[bi - 1]['symbols'])
+    return c
+
+
 def shrink(sc):
     nb = len(sc['builds'])
     if sc.get('par'):
@@ -515,7 +574,7 @@ def shrink(sc):
         if nb > 1:
             c = copy.deepcopy(sc)
             del c['builds'][i]
-            yield c
+            yield _normalise(c)
     for bi, b in enumerate(sc['builds']):
         for ei in range(len(b['evals']) - 1, -1, -1):
             if len(b['evals']) > 1:
